@@ -55,13 +55,17 @@ fn main() {
             };
             let r = std::panic::catch_unwind(|| {
                 let run = execute(setup, Default::default(), &ops);
-                (run.history(), canon(&run, ops.len(), &[], true))
+                let t = trace_line(&run);
+                (run.history(), t["canon"].as_str().unwrap_or("").to_string(), t["sketch"].as_str().unwrap_or("").to_string(), t["dropped"].as_u64().unwrap_or(0))
             });
             n += 1;
             match r {
-                Ok((hist, cn)) => {
+                Ok((hist, cn, sketch, dropped)) => {
                     let want_hist: Vec<String> = v["observed"].as_array().map(|a| a.iter().filter_map(|x| x.as_str().map(|s| s.to_string())).collect()).unwrap_or_default();
                     let want_canon = v["canon"].as_str().unwrap_or("");
+                    // the sketch is comparable only when neither run dropped a buffer (otherwise it depends on timing)
+                    let sketch_ok = dropped != 0 || v["dropped"].as_u64().unwrap_or(0) != 0 || sketch == v["sketch"].as_str().unwrap_or("");
+                    let cn = if sketch_ok { cn } else { format!("{}{}", cn, sketch) };
                     if hist != want_hist || cn != want_canon {
                         bad += 1;
                         if bad <= 5 {
